@@ -227,6 +227,194 @@ def gen_C03(tier, seed):
     return b.cases
 
 
+# ------------------------------------------------------------------------------------------ C06 / C07
+
+def gen_C06(tier, seed):
+    rng = random.Random(seed)
+    b = Builder("C06")
+    maxd = 4 if tier == "quick" else 5
+    k = 1000
+    for elem in ["u32", "cell", "zst"]:
+        for (C, R) in shapes(maxd):
+            d = uniq(C * R, 100)
+            root = f"@ from_vec {C} {R} {fl(d)}"
+            for reserve in ["", "@ reserve 7", "@ shrink_to_fit"]:
+                if reserve and tier == "quick" and (C + R) % 2:
+                    continue
+                pre = [root] + ([reserve] if reserve else [])
+                # rows
+                for i in range(R + 2):
+                    for L in range(C + 2) if C else range(0, 4):
+                        items = uniq(L, k); k += 7
+                        b.case(elem, pre + [f"@ insert_row {i} {L} {fl(items)}", "@ dump", "@ lens", "@ capacity"])
+                for L in sorted(set([C, C + 1, 0])):
+                    items = uniq(L, k); k += 7
+                    b.case(elem, pre + [f"@ push_row {L} {fl(items)}", "@ dump", f"@ push_row {L} {fl(uniq(L, k + 50))}", "@ dump"])
+                # cols
+                for i in range(C + 2):
+                    for L in range(R + 2) if R else range(0, 4):
+                        items = uniq(L, k); k += 7
+                        b.case(elem, pre + [f"@ insert_col {i} {L} {fl(items)}", "@ dump", "@ lens", "@ capacity"])
+                for L in sorted(set([R, R + 1, 0])):
+                    items = uniq(L, k); k += 7
+                    b.case(elem, pre + [f"@ push_col {L} {fl(items)}", "@ dump", f"@ push_col {L} {fl(uniq(L, k + 50))}", "@ dump"])
+    # random build-up histories from the empty array
+    for n in range(40 if tier == "quick" else 400):
+        elem = rng.choice(["u32", "cell", "zst"])
+        C = R = 0
+        lines = []
+        for _ in range(rng.randrange(3, 12)):
+            if rng.random() < 0.5:
+                L = C if R else rng.randrange(0, 5)
+                if rng.random() < 0.1:
+                    L += 1
+                i = rng.randrange(0, R + 1) if rng.random() < 0.9 else R + 1
+                lines.append(f"@ insert_row {i} {L} {fl(uniq(L, k))}"); k += 9
+                if i <= R and (L == C or R == 0) and L > 0:
+                    C, R = L, R + 1
+            else:
+                L = R if C else rng.randrange(0, 5)
+                if rng.random() < 0.1:
+                    L += 1
+                i = rng.randrange(0, C + 1) if rng.random() < 0.9 else C + 1
+                lines.append(f"@ insert_col {i} {L} {fl(uniq(L, k))}"); k += 9
+                if i <= C and (L == R or C == 0) and L > 0:
+                    C, R = C + 1, L
+            lines.append("@ lens")
+        b.case(elem, lines)
+    return b.cases
+
+
+def drain_words(n, depth):
+    """all words over n,b,l of length <= depth (consumption words for drains)"""
+    out = [[]]
+    for d in range(1, depth + 1):
+        for w in itertools.product("nbl", repeat=d):
+            out.append(list(w))
+    return out
+
+
+def gen_C07(tier, seed):
+    rng = random.Random(seed)
+    b = Builder("C07")
+    maxd = 4 if tier == "quick" else 5
+    for elem in ["u32", "cell", "zst"]:
+        for (C, R) in shapes(maxd):
+            d = uniq(C * R, 100)
+            root = f"@ from_vec {C} {R} {fl(d)}"
+            # every (front, back) split with len() observations in between
+            for kind, dim, n in [("row", R, C), ("col", C, R)]:
+                for i in range(dim + 1):
+                    words = []
+                    for f in range(n + 2):
+                        for bk in range(n + 2 - f):
+                            w = ["l"] + ["n"] * f + ["l"] + ["b"] * bk + ["l", "h"]
+                            words.append(w)
+                    words += [list(w) for w in sample(rng, drain_words(n, min(n + 2, 4)), 12 if tier == "quick" else 80)]
+                    for w in sample(rng, words, 10 if tier == "quick" else 60):
+                        b.case(elem, [root, f"@ remove_{kind} {i} {','.join(w) if w else '-'} drop", "@ dump", "@ lens"])
+                b.case(elem, [root, f"@ remove_{kind} {dim + 1} - drop", f"@ remove_{kind} {U64} n drop", "@ dump"])
+            # pop until empty and beyond
+            lines = [root]
+            for _ in range(R + 2):
+                lines += ["@ pop_row n,l drop", "@ lens"]
+            b.case(elem, lines)
+            lines = [root]
+            for _ in range(C + 2):
+                lines += ["@ pop_col b,l drop", "@ lens"]
+            b.case(elem, lines)
+    return b.cases
+
+
+# ------------------------------------------------------------------------------------------ C08 / C09 / C10
+
+def big_ns(d):
+    out = [2**32, 2**63, U64]
+    if d > 0:
+        q = (2**64 + d - 1) // d
+        out += [q, q - 1, q + 1, (2**64 + 1) // d]
+    return [x for x in out if 0 <= x <= U64]
+
+
+def iter_steps(n, d, kind, allow_consuming=True):
+    steps = ["n", "b", "l", "h"] + [f"N{i}" for i in range(n + 2)] + [f"B{i}" for i in range(n + 2)]
+    if kind != "col":
+        steps.append("w")
+    else:
+        steps += [f"i{i}" for i in range(n + 2)]
+    return steps
+
+
+def gen_iter(pid, tier, seed, kinds):
+    """kinds: list of (iterator op prefix, is_col, is_cells)"""
+    rng = random.Random(seed)
+    b = Builder(pid)
+    maxd = 3 if tier == "quick" else 4
+    depth = 3
+    for (C, R) in shapes(maxd):
+        d = uniq(C * R, 100)
+        root = f"@ from_vec {C} {R} {fl(d)}"
+        recvs = ["@", "@x"]
+        ws = valid_windows(C, R)
+        for w in sample(rng, ws, 4 if tier == "quick" else 14):
+            s = ",".join(map(str, w))
+            recvs += [f"@v({s})", f"@w({s})"]
+            wc, wr = w[2] - w[0], w[3] - w[1]
+            if wc > 1 and wr > 1:
+                recvs.append(f"@v({s})v(1,0,{wc},{wr - 1})")
+        recvs += [f"@S({C},{R},{C * R})", f"@s({C},{R},{C * R})"]
+        for rv in recvs:
+            shared = "w(" in rv or "s(" in rv
+            for (name, is_col, is_cells) in kinds:
+                if name.endswith("_mut") and shared:
+                    continue
+                if name.startswith("iter_") and rv.startswith("@x"):
+                    continue
+                if name == "iter_mut" and shared:
+                    continue
+                cols = range(C + 1) if is_col else [None]
+                for c in cols:
+                    n = (C * R) if is_cells else R
+                    n = min(n, 9)
+                    stride = C
+                    steps = iter_steps(min(n, 4), stride, "col" if is_col else ("cells" if is_cells else "rows"))
+                    finals = ["c", "L", "f", "r"]
+                    words = []
+                    # exhaustive words up to depth over a reduced alphabet + random longer ones with huge arguments
+                    alpha = ["n", "b", "l", "N0", "N1", "B0", "B1"] + ([f"i{min(n,1)}"] if is_col else [])
+                    for dd in range(0, depth + 1):
+                        for w_ in itertools.product(alpha, repeat=dd):
+                            words.append(list(w_))
+                    words = sample(rng, words, 25 if tier == "quick" else 200)
+                    for _ in range(25 if tier == "quick" else 250):
+                        L = rng.randrange(1, 10)
+                        w_ = [rng.choice(steps) for _ in range(L)]
+                        if rng.random() < 0.3:
+                            pos = rng.randrange(L)
+                            w_[pos] = rng.choice(["N", "B"] + (["i"] if is_col else [])) + str(rng.choice(big_ns(stride if not is_cells else 1) + big_ns(max(1, C))))
+                        if rng.random() < 0.5:
+                            w_.append(rng.choice(finals))
+                        words.append(w_)
+                    lines = [root]
+                    for w_ in words:
+                        ws_ = ",".join(w_) if w_ else "-"
+                        lines.append(f"{rv} {name}{'' if c is None else ' ' + str(c)} {ws_}")
+                    b.case("u32", lines)
+    return b.cases
+
+
+def gen_C08(tier, seed):
+    return gen_iter("C08", tier, seed, [("rows", False, False), ("rows_mut", False, False)])
+
+
+def gen_C09(tier, seed):
+    return gen_iter("C09", tier, seed, [("col", True, False), ("col_mut", True, False)])
+
+
+def gen_C10(tier, seed):
+    return gen_iter("C10", tier, seed, [("cells", False, True), ("cells_mut", False, True), ("iter_ref", False, True), ("iter_mut", False, True)])
+
+
 # ------------------------------------------------------------------------------------------ registry
 
 GENS = {}
